@@ -197,8 +197,7 @@ def check_invariant(ctx, F):
                     ctx.ok('R7', 'no safe fn returns &mut to an invariant field', b.defpath, 'returned reference does not point at pos/buf', key=key)
     ctx.extra['cursor_literals'] = n_lit
     ctx.extra['cursor_mutators'] = n_meth
-    if n_lit < 5:
-        ctx.bad('R6', 'floor: Cursor literal sites', CURSOR, 'only %d literal sites found (>= 5 constructors expected): role nearly empty' % n_lit, key='R6/floor/cursor-literals')
+    ctx.floor('R6', 'floor: Cursor literal sites', CURSOR, n_lit, 5, 'only %d literal sites found (>= 5 constructors expected): role nearly empty' % n_lit, key='R6/floor/cursor-literals')
 
 
 def _ret_is_slice_ref(F, ty_id):
